@@ -56,7 +56,11 @@ func genBulk(r *rng, n int, tier string, emit func(J)) {
 			}
 			elems = append(elems, e)
 		}
-		emit(J{"cont": r.p(50), "elems": elems, "broken": r.p(3)})
+		hdr := ""
+		if r.p(30) { // a request-level Idempotency-Key header must not leak into the elements
+			hdr = fmt.Sprintf("hk%d", r.n(2))
+		}
+		emit(J{"cont": r.p(50), "elems": elems, "broken": r.p(3), "hdr_ik": hdr})
 	}
 }
 
@@ -164,6 +168,9 @@ func execBulk(in J) J {
 		url += "?continueOnFailure=true"
 	}
 	req := httptest.NewRequest(http.MethodPost, url, bytes.NewReader(body.Bytes()))
+	if h, _ := in["hdr_ik"].(string); h != "" {
+		req.Header.Set("Idempotency-Key", h)
+	}
 	rec := httptest.NewRecorder()
 	router.ServeHTTP(rec, req)
 
